@@ -6,10 +6,12 @@ package main
 // ((width/4, width/4, 1) / (16, 16, 1): four wavefronts per work-group, one 64x64 tile through 16 KiB of LDS,
 // one S_BARRIER).
 //
-//   * `c01 emu …`   the Lean emulator (LDS writes / reads of `C03V.exec`, the barrier rounds of `runWG`) runs the
-//                   same code bytes, packet, kernel-argument image and input: final output buffer bit for bit.
 //   * `c01 ttcode`  the bytes the real loader extracts = the Lean literal `transposeKernelCode` the statements of
 //                   Props/C01Bar.lean are about.
+//   * NOT a `c01 emu` case: the kernel computes `(gix + giy) % num_of_blocks_x` with `v_rcp_iflag_f32`, which is
+//                   outside the C03V specification (no division in its reference arithmetic), so the Lean emulator
+//                   answers `fault:nospec` on this kernel; its LDS / barrier path is tied by the hand-assembled
+//                   `lds-barrier` and `two barriers` kernels of c01_deep.go instead.
 //   * oracles       C01.tt.host-reference (output = transposed input, element for element) and the frame
 //                   (input unchanged, guard bytes behind the output unchanged).
 
@@ -177,7 +179,6 @@ func runC01TT(r *Run, rng *Rng, replay string) {
 		}
 		r.Count("deep-kernel-" + res.Name)
 		r.CountN("deep-code-bytes", len(res.Code))
-		r.Case(c01CaseLine(res), hex.EncodeToString(res.Out))
 		if i == 0 {
 			r.Case("c01 ttcode", hex.EncodeToString(res.Code))
 		}
